@@ -350,6 +350,9 @@ func TestVerifC06Histories(t *testing.T) {
 	r.Bound("signers", 2)
 	u := vc06NewUniverse()
 	var rc vc06HistCase
+	if os.Getenv("VERIF_REPLAY") != "" && !r.ReplayCase(&rc) {
+		return // the replay file belongs to another part
+	}
 	if r.ReplayCase(&rc) {
 		var hist []vc06Ev
 		for _, s := range rc.History {
